@@ -14,6 +14,7 @@ import IdpyVerif.Driver.FileStore
 import IdpyVerif.Driver.IdToken
 import IdpyVerif.Driver.RPState
 import IdpyVerif.Driver.Interop
+import IdpyVerif.Driver.MsgRules
 open Idpy
 
 structure DState where
@@ -34,6 +35,7 @@ def dispatch (st : DState) (fields : List String) : DState × String :=
   | "pkce" :: args => (st, (Driver.Pkce.handle args).getD "bad-op")
   | "redir" :: args => (st, (Driver.Redirect.handle args).getD "bad-op")
   | "msg" :: args => (st, (Driver.Msg.handle args).getD "bad-op")
+  | "rules" :: args => (st, (Driver.MsgRules.handle args).getD "bad-op")
   | "cookie" :: args => (st, (Driver.C17.handle args).getD "bad-op")
   | "interop" :: args => (st, (Driver.Interop.handle args).getD "bad-op")
   | "rps" :: args =>
